@@ -588,7 +588,7 @@ Theorem c01_oracle_sound (apps : list A) (ins : list minput) :
   forall k r, In (k, r) (monitor p (length apps) (model_transcript A ops p apps ins)) -> rule_prop r <> PC01.
 Proof.
   intros Hok Hrun.
-  apply (generic_sound_transcript A ops p (length apps) (is_not PC01) (J1 (length apps)) no_stale); try assumption; try reflexivity.
+  apply (generic_sound_transcript A ops p (length apps) (fun r => rule_prop r <> PC01) (J1 (length apps)) no_stale); try assumption; try reflexivity.
   - discriminate.
   - intros a f apps0 buf tl m g f' HJ E HG. exact (J1_api _ _ _ _ _ _ _ _ _ HJ E HG).
   - intros f apps0 buf tl m g now busy nb f' o apps' calls HJ Hle Hnow Hnb E HG'.
@@ -607,7 +607,7 @@ Theorem c06_oracle_sound (apps : list A) (ins : list minput) :
   forall k r, In (k, r) (monitor p (length apps) (model_transcript A ops p apps ins)) -> rule_prop r <> PC06.
 Proof.
   intros Hok Hrun.
-  apply (generic_sound_transcript A ops p (length apps) (is_not PC06) (J1 (length apps)) no_stale); try assumption; try reflexivity.
+  apply (generic_sound_transcript A ops p (length apps) (fun r => rule_prop r <> PC06) (J1 (length apps)) no_stale); try assumption; try reflexivity.
   - discriminate.
   - intros a f apps0 buf tl m g f' HJ E HG. exact (J1_api _ _ _ _ _ _ _ _ _ HJ E HG).
   - intros f apps0 buf tl m g now busy nb f' o apps' calls HJ Hle Hnow Hnb E HG'.
